@@ -557,16 +557,20 @@ def run_histories(ctx):
             lambda oq=oq, sq=sq: _mt.dscore(oq, sq),
             [lambda: _mt.dscore(r_.uniform(size=8), r_.uniform(size=(8, 3)),
                                 eps=float(10.0 ** -r_.integers(9, 20)))])
-    for lab, (main, others) in probes.items():
-        with warnings.catch_warnings(), np.errstate(all="ignore"):
-            warnings.simplefilter("ignore")
-            first = main()
+    # (all the first answers are taken before any of the other calls is made: an option
+    # that outlives its call would otherwise already be in force for the later probes)
+    with warnings.catch_warnings(), np.errstate(all="ignore"):
+        warnings.simplefilter("ignore")
+        firsts = {lab: main() for lab, (main, _) in probes.items()}
+        for lab, (_, others) in probes.items():
             for o_ in others:
                 try:
                     o_()
                 except Exception:
                     pass
-            later = main()
+        laters = {lab: main() for lab, (main, _) in probes.items()}
+    for lab, (main, others) in probes.items():
+        first, later = firsts[lab], laters[lab]
         ctx.api(lab.split(".")[-1], 2 + len(others))
         ctx.tag("history:other-options-in-between")
         ctx.evaluated()
